@@ -14,6 +14,8 @@ THEOREMS = [
     "Cog.Sem.C01_pass_widening_ext_partial", "Cog.Sem.C01_source_roundtrip_ext_partial",
     "Cog.Sem.Src.widen_chainX", "Cog.Sem.Src.nr_widenN", "Cog.Sem.Src.null_widen", "Cog.Sem.Src.ae_widen", "Cog.Sem.Src.xden_mono",
     "Cog.Sem.C01_pass_widening_counterexample",
+    "Cog.Sem.C01_pass_widening_struct_partial", "Cog.Sem.C01_source_roundtrip_struct_partial",
+    "Cog.Sem.Src.widen_chainS", "Cog.Sem.Src.as_widen",
 ]
 
 
@@ -102,13 +104,13 @@ def pass_widening_tie(c, hb):
             pinned.append((r, m, valid and d["src"] == "true" and d["den"] == "false" and d["mden"] == "false"))
             continue
         if cid not in cases:
-            cases[cid] = (d["plainN"] == "true", d["plain"] == "true")
-            if d["plainN"] != "true":
-                notplain[d["notplainN"]] = notplain.get(d["notplainN"], 0) + 1
+            cases[cid] = (d["plainS"] == "true", d["plain"] == "true", d["plainN"] == "true")
+            if d["plainS"] != "true":
+                notplain[d["notplainS"]] = notplain.get(d["notplainS"], 0) + 1
         st["documents"] += 1
         st["valid" if valid else "invalid"] += 1
-        # "plain" below = the PROVED fragment PlainX (Plain + `T | null` pairs + anonymous enums); Plain alone is counted apart
-        src, den, plain = d["src"] == "true", d["den"] == "true", d["plainN"] == "true"
+        # "plain" below = the PROVED fragment PlainS (Plain + `T | null` pairs + anonymous enums + anonymous structs); Plain alone is counted apart
+        src, den, plain = d["src"] == "true", d["den"] == "true", d["plainS"] == "true"
         if d["plain"] == "true":
             st["plain_only_documents"] += 1
             st["plain_only_in_srcDen"] += int(src)
@@ -144,16 +146,17 @@ def pass_widening_tie(c, hb):
                 "driver": m, "case": case_line.get(cid, ""), "how_to_replay": "harness c01-src seed=%d n=%d docs=%d faults=%d, case %s" % (c.seed, n, docs, faults, cid)}
     for r, m in b_fail[:3]:
         c.violation(payload("theorem-instance-fails-on-real-passes",
-                            "C01_pass_widening_{plain,ext}_partial: PlainX ∧ srcDen hold on the real pre-chain IR but the document is not in `den` of the REAL post-chain IR (pass model and real pass disagree)", r, m))
+                            "C01_pass_widening_{plain,ext,struct}_partial: PlainS ∧ srcDen hold on the real pre-chain IR but the document is not in `den` of the REAL post-chain IR (pass model and real pass disagree)", r, m))
     for r, m in m_fail[:3]:
         c.violation(payload("theorem-instance-fails-on-model",
-                            "C01_pass_widening_{plain,ext}_partial evaluated by the driver on the pass MODELS' output is false", r, m), found_input=False)
+                            "C01_pass_widening_{plain,ext,struct}_partial evaluated by the driver on the pass MODELS' output is false", r, m), found_input=False)
     for r, m in unsound[:3]:
         c.violation(payload("srcDen-accepts-invalid-document",
                             "srcDen accepts a document the schema language's own validator rejects (model of the source reading is unsound)", r, m))
     nplain = len([1 for v in cases.values() if v[0]])
     nplain_only = len([1 for v in cases.values() if v[1]])
-    c.oblige("c01-src (b): PlainX ∧ srcDen ⇒ den on the REAL post-chain IR (%d documents of %d cases in the proved fragment, %d of them Plain)" % (st["plain_in_srcDen"], nplain, nplain_only), not b_fail and not m_fail)
+    nplain_x = len([1 for v in cases.values() if v[2]])
+    c.oblige("c01-src (b): PlainS ∧ srcDen ⇒ den on the REAL post-chain IR (%d documents of %d cases in the proved fragment, %d of them Plain)" % (st["plain_in_srcDen"], nplain, nplain_only), not b_fail and not m_fail)
     c.oblige("c01-src (a'): srcDen accepts no document the reference validator rejects (%d invalid documents)" % st["invalid"], not unsound)
     c.oblige("witness of C01_pass_widening_counterexample replays on the real front-end and passes (source-valid, in srcDen, not in den of the real post-chain IR nor of the model's)",
              len(pinned) == 1 and all(p[2] for p in pinned), [(p[0][1], p[1]) for p in pinned] or "pinned row missing")
@@ -162,8 +165,8 @@ def pass_widening_tie(c, hb):
     c.count("c01-src", len(rows), [r[0] for r in rows if r[0].startswith("srcden ") and r[0].count("(") >= 6],
             samples=[{"stream": "c01-src", "request": r[0][:400], "impl": r[1][:200], "oracle": "ok"} for r in rows if r[0].startswith("srcden ")][:2])
     c.cov["disagreements_checked"] += st["plain_in_srcDen"] + st["invalid"]
-    c.cov["pass_widening"] = dict(st, cases=len(cases), plain_cases=nplain, plain_only_cases=nplain_only, not_plain_first_construct=notplain,
-                                  legend="plain_* = the proved fragment PlainX (Plain + two-branch `T | null` + anonymous enums with fresh generated names); plain_only_* = Plain",
+    c.cov["pass_widening"] = dict(st, cases=len(cases), plain_cases=nplain, plain_only_cases=nplain_only, plainX_cases=nplain_x, not_plain_first_construct=notplain,
+                                  legend="plain_* = the proved fragment PlainS (Plain + two-branch `T | null` + anonymous enums + anonymous structs, generated names fresh); plain_only_* = Plain; plainX_cases = without anonymous structs",
                                   plain_valid_not_in_srcDen_den_exclusions=why, plain_valid_not_in_srcDen_other=whyx,
                                   rate_a="%d/%d" % (st["plain_valid_in_srcDen"], st["plain_valid"]),
                                   rate_b="%d/%d" % (st["plain_in_srcDen_and_den_real"], st["plain_in_srcDen"]))
@@ -174,7 +177,7 @@ def main():
     c = Check("C01")
     c.trusted = [
         "Lean 4.33 kernel; axioms per theorem in obligation_list",
-        "PROVED: codec round trip on the post-chain IR for every document of `den` (lean/Cog/Sem/Den.lean); pass widening srcDen(pre-chain) ⊆ den(post-chain) through the regenerated Go chain on the fragment PlainX = plain + `T | null` pairs + anonymous enums with fresh generated names (lean/Cog/Sem/SrcDen.lean, Widen*.lean); the full statement is refuted (C01_pass_widening_counterexample, replayed); NOT proved: parser soundness, pass widening outside that fragment (unions of scalars / of references, anonymous structs, disjunctions of constants) (covered by this check's correspondence on source-valid documents only)",
+        "PROVED: codec round trip on the post-chain IR for every document of `den` (lean/Cog/Sem/Den.lean); pass widening srcDen(pre-chain) ⊆ den(post-chain) through the regenerated Go chain on the fragment PlainS = plain + `T | null` pairs + anonymous enums + anonymous structs, generated object names fresh (lean/Cog/Sem/SrcDen.lean, Widen*.lean); the full statement is refuted (C01_pass_widening_counterexample, replayed); NOT proved: parser soundness, pass widening outside that fragment (unions of scalars / of references, disjunctions of constants, `T | null` over an enum or nested pair) (covered by this check's correspondence on source-valid documents only)",
         "pass models lean/Cog/Passes/*.lean (C06) and the source-side language `srcDen`: tied by the c01-src stream (real front-end output and real post-chain IR of every case; reference validators on valid and single-fault documents)",
         "hand-written model lean/Cog/Sem/{GoVal,GoCodec}.lean of encoding/json on the generated Go types and of the two custom union (un)marshallers, tied by the c01-rows stream: real pipeline -> real `go build` -> real decode/encode of every document",
         "source side: documents are drawn from the Src grammar and checked against the schema language's own validator (santhosh-tekuri/jsonschema, kin-openapi, cuelang) before use; encoding/json, the Go toolchain and those validators are trusted",
